@@ -302,9 +302,20 @@ class AbsRng(VAbs):
                 hi = _e.to_int(e.deref(args[1], s)) if len(args) > 1 else None
                 if hi is None:
                     lo, hi = z3.IntVal(0), lo
-                e.safety(s, "rng.integers:low<high", lo < hi, None, "rng.integers(low, high) raises ValueError when low >= high")
+                if e.cur_contract.get("rng_empty_raises"):
+                    # numpy: ValueError("low >= high") - an explicit rejection, modelled as a raise outcome
+                    sr = s.fork()
+                    sr.assume(lo >= hi)
+                    from .state import feasible as _feas
+                    if _feas(sr.pc):
+                        e.pending_raises.append((sr, "ValueError"))
+                    s.assume(lo < hi)
+                else:
+                    e.safety(s, "rng.integers:low<high", lo < hi, None, "rng.integers(low, high) raises ValueError when low >= high")
                 r = z3.Function("RngInt", z3.IntSort(), z3.IntSort(), z3.IntSort())(self.key, z3.IntVal(self.draws))
                 s.assume(z3.And(lo <= r, r < hi))
+                if "size" in kwargs:
+                    return s.alloc(VSeq.of([VInt(r)], INT))
                 return VInt(r)
             return VFunc("rng.integers", f)
         raise KeyError(name)
